@@ -12,7 +12,7 @@
  *   kind=<name>  only this kind               path~=<s>  path or path2 contains s
  *   dst~=<s>     path2 (rename destination) contains s
  *   wr=1         only opens that can write
- *   act=kill-before | kill-after | errno:<E> | short | sig:<N> (raise, synchronous) | psig:<N> (kill(getpid())) |
+ *   act=kill-before | kill-after | errno:<E> | slowerr:<E> (hang 6.5 s, then fail) | short | sig:<N> (raise, synchronous) | psig:<N> (kill(getpid())) |
  *       sigafter:<N> | delay:<ms>
  * Only paths below the root count; the log itself lives elsewhere.
  */
@@ -41,6 +41,7 @@ static size_t g_rootlen = 0;
 static char g_root2[4096];      /* optional second monitored tree ($VF_SHIM_ROOT2), e.g. a TMPDIR on another filesystem */
 static size_t g_root2len = 0;
 static int g_init = 0;
+static int g_reads = 0;         /* $VF_SHIM_READS: read(2)/pread(2) on files below the root are operations too (kind "read") */
 static int g_stdio = 0;         /* $VF_SHIM_STDIO: writes to fd 1/2 are operation boundaries too (kind "stdio") */
 
 #define MAXRULES 32
@@ -97,6 +98,7 @@ static void init(void)
     if (log) g_log = syscall(SYS_open, log, O_WRONLY | O_CREAT | O_APPEND | O_CLOEXEC, 0644);
     if (rules) parse_rules(rules);
     if (getenv("VF_SHIM_STDIO")) g_stdio = 1;
+    if (getenv("VF_SHIM_READS")) g_reads = 1;
 }
 __attribute__((constructor)) static void ctor(void) { init(); }
 
@@ -187,6 +189,9 @@ static struct op begin(const char *kind, const char *p1, const char *p2, long fl
         else if (!strcmp(a, "sig")) { logf_("F %ld sig:%ld\n", o.n, o.r->arg); raise((int)o.r->arg);
             struct timespec ts = { 0, 3000000L }; nanosleep(&ts, NULL); }
         else if (!strcmp(a, "psig")) { logf_("F %ld psig:%ld\n", o.n, o.r->arg); kill(getpid(), (int)o.r->arg); }
+        /* the operation hangs for 6.5 s and then fails with the given errno (a soft-mounted NFS timing out) */
+        else if (!strcmp(a, "slowerr")) { logf_("F %ld slowerr:%ld\n", o.n, o.r->arg);
+            struct timespec ts = { 6, 500000000L }; nanosleep(&ts, NULL); *inj_errno = (int)o.r->arg; }
         else if (!strcmp(a, "delay")) { logf_("F %ld delay:%ld\n", o.n, o.r->arg);
             struct timespec ts = { o.r->arg / 1000, (o.r->arg % 1000) * 1000000L }; nanosleep(&ts, NULL); }
     }
@@ -288,8 +293,11 @@ ssize_t write(int fd, const void *b, size_t n)
         }
         snip[m] = 0;
         struct op o = begin("stdio", fd == 1 ? "<stdout>" : "<stderr>", snip, fd, (long)n, 0, &ie, &sw);
-        long r = raw_write(fd, b, n);
-        int e = errno;
+        long r; int e;
+        /* an injected errno on a log line (EPIPE: the reader of `breadlog | head` has gone away) makes println! panic:
+         * an abnormal end that unwinds (destructors run), unlike a kill */
+        if (ie) { r = -1; e = ie; }
+        else { r = raw_write(fd, b, n); e = errno; }
         end(o, r, e);
         errno = e;
         return r;
@@ -325,6 +333,43 @@ ssize_t writev(int fd, const struct iovec *iov, int cnt)
     errno = err;
     return ret;
 }
+
+/* ---------- fd-level reads (opt-in): errno injection = the read fails, "short" = it returns at most half of what was asked
+ * (legal kernel behaviour: FUSE / NFS transfer sizes, signals) ---------- */
+ssize_t read(int fd, void *b, size_t n)
+{
+    init();
+    if (!g_reads || !g_rootlen) return syscall(SYS_read, fd, b, n);
+    char pb[4096];
+    const char *p = fd_path(fd, pb, sizeof pb);
+    if (!in_root(p)) return syscall(SYS_read, fd, b, n);
+    int ie, sw;
+    struct op o = begin("read", p, NULL, fd, (long)n, 0, &ie, &sw);
+    long ret; int err = 0;
+    if (ie) { ret = -1; err = ie; }
+    else { ret = syscall(SYS_read, fd, b, (sw && n > 1) ? n / 2 : n); err = errno; }
+    end(o, ret, err);
+    errno = err;
+    return ret;
+}
+
+ssize_t pread64(int fd, void *b, size_t n, off64_t off)
+{
+    init();
+    if (!g_reads || !g_rootlen) return syscall(SYS_pread64, fd, b, n, off);
+    char pb[4096];
+    const char *p = fd_path(fd, pb, sizeof pb);
+    if (!in_root(p)) return syscall(SYS_pread64, fd, b, n, off);
+    int ie, sw;
+    struct op o = begin("read", p, NULL, fd, (long)n, 0, &ie, &sw);
+    long ret; int err = 0;
+    if (ie) { ret = -1; err = ie; }
+    else { ret = syscall(SYS_pread64, fd, b, (sw && n > 1) ? n / 2 : n, off); err = errno; }
+    end(o, ret, err);
+    errno = err;
+    return ret;
+}
+ssize_t pread(int fd, void *b, size_t n, off_t off) { return pread64(fd, b, n, off); }
 
 ssize_t pwrite64(int fd, const void *b, size_t n, off64_t off)
 {
